@@ -14,9 +14,20 @@ EXPLANATION = ("V1 positional decode (path-sensitive abstract evaluation with a 
                "if no value failed the only effect is that the text collection is inserted into `attrs` under the attribute type; if "
                "any value failed (flag / non-empty binary vector / v itself) the text collection is appended, as bytes, to "
                "bin_attrs[type], so is a local vector of binary values, and nothing is inserted into `attrs`.  The loop over the "
-               "values is only left by exhaustion.  The two maps returned are distinct fresh maps. Not decided: 'no value lost or "
+               "values is only left by exhaustion.  The two maps returned are distinct fresh maps.  Second form of V2 (nothing carried from "
+               "value to value; the collected values S are consulted as a whole): phase 1, the decision - a path that completes an attribute "
+               "must know whether some value of S fails the UTF-8 test from a primitive that applies that test to every element of S: any / "
+               "position / find with 'fails' as the predicate, all with 'is valid', or the tests' Results collected into one Result, over S "
+               "itself (not a part of it); partition_point, binary_search, first / last, an indexed value or a count decide nothing about "
+               "all values and are named in the alarm.  Phase 2, the placement given the decision - 'none fails': the only effect is "
+               "attrs.insert(type, S mapped element by element to the decoded text); the branch of a fallible conversion in which an "
+               "element of S fails the test the decision says no element fails is infeasible, so filter_map(.ok()) loses nothing there and "
+               "only there; 'some fails': the only effect is S itself, up to a permutation (sort*, reverse: multiset preserved), appended to "
+               "bin_attrs[type], nothing in attrs.  Between decision and placement S is only observed, permuted or handed on whole, and no "
+               "search runs on a named iterator (it would be left advanced).  Not decided: 'no value lost or "
                "altered' as a statement about contents; duplicate attribute types in one entry (a second insert replaces the first).")
-TRUSTED = ['std iterator adapters (map, filter_map, collect) preserve order', 'HashMap entry API']
+TRUSTED = ['std iterator adapters (map, filter_map, collect) preserve order', 'HashMap entry API',
+           'Iterator::{any, all, position, find} apply their predicate to the elements in order until the answer is certain; slice sort* / reverse permute']
 UNDECIDED = ['content equality of values', 'duplicate attribute types within one entry']
 ASSUMPTIONS = ['a generic element stands for every element of a `for` / iterator chain (the loop body is the same for all)']
 
